@@ -22,11 +22,12 @@ EXPLANATION = (
     "unexpanded iff it is disjoint from the target or strictly inside it (pruning-guard engine of C03-G). (D6) "
     "enumeration shape: successions are the products of edge_all_stable_motifs(x, y, reduced=True) along "
     "nx.all_simple_paths(dag, root, end node) for every end node, each appended once, with no early exit outside the "
-    "skip_feedforward_successions option; the empty succession is reported iff an end node exists but no path was listed."
+    "skip_feedforward_successions option; the empty succession is reported iff an end node exists but no path was listed. "
+    "(D3) the end nodes: rule D3 of C06 (forbidden = inconsistent with the target or a minimal trap space outside of it; "
+    "a node that reaches a forbidden node -- by a recognised complete reachability construction -- is no end node)."
 )
 ASSUMPTIONS = [
     "completeness/minimality as set equalities over run-time values are not decided",
-    "the end-node classification is C06-D3",
 ]
 
 
@@ -34,6 +35,9 @@ def run(ck: Check) -> None:
     d4(ck)
     c03.g_level(ck, "D5")
     d6(ck)
+    from . import c06
+    c06.d3(ck)   # the end nodes of the successions (classification, reachability of forbidden nodes)
+    ck.floor("D3", 3)
     ck.floor("D4", 7)
     ck.floor("D5", 3)
     ck.floor("D6", 3)
@@ -111,9 +115,30 @@ def d4(ck: Check) -> None:
     else:
         t = f.parents[sk[0]].test
         g = t.args[0] if isinstance(t, ast.Call) and t.args else None
-        okf = isinstance(g, ast.GeneratorExp) and isinstance(g.elt, ast.Compare) and isinstance(g.elt.ops[0], ast.LtE) \
-            and text(g.elt.left) == f"set({text(g.generators[0].target)})" and DS in text(g.elt.comparators[0]) \
-            and text(g.generators[0].iter) == res and not g.generators[0].ifs
+        okf = False
+        if isinstance(g, (ast.GeneratorExp, ast.ListComp)) and len(g.generators) == 1 and not g.generators[0].ifs \
+                and text(g.generators[0].iter) == res:
+            dv = text(g.generators[0].target)
+            at = fm.cfgn(f.parents[sk[0]])
+
+            def keyset(e):   # the key set of the reported driver set `dv`
+                return text(e) in (f"set({dv})", f"{dv}.keys()", f"set({dv}.keys())", f"frozenset({dv})", f"frozenset({dv}.keys())")
+
+            def dsset(e):    # the elements of the driver set under test
+                e = fm.deref(e, at)
+                return text(e) in (f"set({DS})", f"frozenset({DS})", DS)
+
+            c_ = g.elt
+            if isinstance(c_, ast.Compare) and len(c_.ops) == 1:
+                if isinstance(c_.ops[0], ast.LtE):
+                    okf = keyset(c_.left) and dsset(c_.comparators[0])
+                elif isinstance(c_.ops[0], ast.GtE):
+                    okf = keyset(c_.comparators[0]) and dsset(c_.left)
+            elif isinstance(c_, ast.Call) and isinstance(c_.func, ast.Attribute) and len(c_.args) == 1:
+                if c_.func.attr == "issubset":
+                    okf = keyset(c_.func.value) and dsset(c_.args[0])
+                elif c_.func.attr == "issuperset":
+                    okf = dsset(c_.func.value) and text(fm.deref(c_.func.value, at)) != DS and (keyset(c_.args[0]) or text(c_.args[0]) == dv)
         if not okf:
             probs.append(f"a driver set is skipped when `{text(t)}`; expected: when some reported driver set is a subset of it")
     ck.ob("D4", fm, sk[0] if sk else f.node, not probs, "; ".join(probs) if probs else
